@@ -267,7 +267,8 @@ fn environments_part<V: Variant>(ctx: &mut Ctx, tier: Tier, keys: &[KeyCtx<V>]) 
     // that sit on the decoder's end-of-buffer paths (found by `falcon-mc diag fitscan`; 6e-5 of Falcon-1024
     // signatures fit exactly, Falcon-512 signatures never come close)
     if V::N == 1024 {
-        let tight: Vec<u64> = if tier.thorough() { (0..60000).collect() } else { vec![5338, 8576, 19927, 8599, 11819, 6409, 9671, 190, 2925, 2807, 7260, 2051, 2550, 3568, 5772, 6085, 8833, 10860] };
+        let (fit, retry) = crate::util::tight_fit_streams();
+        let tight: Vec<u64> = if tier.thorough() { (0..60000).collect() } else { fit.into_iter().chain(retry).collect() };
         let body = crate::refmodel::sig_len(V::N) - 41;
         let t = tight
             .par_iter()
@@ -277,8 +278,12 @@ fn environments_part<V: Variant>(ctx: &mut Ctx, tier: Tier, keys: &[KeyCtx<V>]) 
                 t.cases += 1;
                 t.calls += 2;
                 let case = || json!({"kind":"tight","variant":V::N,"seed":key.seed,"stream":k});
+                let _ = falcon_rust::verif_hooks::take_loop_counters();
                 match catch(|| with_stream(1_000_000 + k, || V::sign(b"exact fit", &key.sk))) {
                     Ok(sig) => {
+                        if falcon_rust::verif_hooks::take_loop_counters().1 > 1 {
+                            t.out("first attempt did not fit the body: compression retried");
+                        }
                         let sb = V::sig_to_bytes(&sig);
                         if let Some(s2) = crate::refmodel::codec::decompress(&sb[41..], V::N) {
                             let slack = 8 * body as i64 - crate::refmodel::codec::bits_of(&s2) as i64;
@@ -293,7 +298,7 @@ fn environments_part<V: Variant>(ctx: &mut Ctx, tier: Tier, keys: &[KeyCtx<V>]) 
                 t
             })
             .reduce(Tally::default, reduce);
-        let mut part = Part::new(&format!("tight_fit_signatures_{}", V::N), &format!("{} signer streams x one key and message, chosen (quick) so that the compressed s2 leaves 0, 1, ..., 8 bits of the body unused / all of a window of 60000 streams (thorough): the signature verifies and the reference Algorithm 16 accepts it", tight.len()));
+        let mut part = Part::new(&format!("tight_fit_signatures_{}", V::N), &format!("{} signer streams x one key and message, chosen (quick) so that the compressed s2 leaves 0, 1, ..., 8 bits of the body unused or the first attempt overshoots the body and the compression-retry branch is taken / all of a window of 60000 streams (thorough): the signature verifies and the reference Algorithm 16 accepts it", tight.len()));
         part.exhaustive = true;
         t.into_part(ctx, part);
     }
